@@ -729,6 +729,20 @@ func rulePXGroupRender(c *Ctx) []Obligation {
 		}
 		t.note("writes go to the writer parameter", okWriter, "path %s writes elsewhere", traceOf(p))
 		F := p.Facts
+		if nullItems == nil {
+			// the all-null test is inlined: read it off the item facts
+			if v, known := c.itemsAllNull3(p, F, "recv.items"); known {
+				nullT = "#allnull"
+				F = F.with(nullT, v)
+			}
+		}
+		if prev == nil {
+			// the look-up of the preceding item is inlined: the value whose dynamic type is examined
+			if x, okPos, why := c.inlinedPrevious(F); x != "" {
+				prevT = x
+				t.note("a block looks up what precedes itself in the enclosing statement", okPos, "path %s: %s", traceOf(p), why)
+			}
+		}
 		if itemsEv == nil {
 			// nothing rendered: only an all-null type list
 			ok := len(before) == 0 && F.Has(`eq("types",recv.name)`, true) && nullT != "" && F.Has(nullT, true)
@@ -843,7 +857,15 @@ func rulePXGroupRender(c *Ctx) []Obligation {
 	if prev != nil {
 		c.checkPreviousPX(o, prev)
 	} else {
-		o.add(Violated, fn, "a block can see the item that precedes it", f.Pos(), true, "no lookup of the preceding item: Case / Default blocks cannot be recognised")
+		// inlined: judged per path above ("a block looks up what precedes itself …"); it must have
+		// been exercised at all
+		seen := false
+		for _, ob := range o.list {
+			if strings.HasSuffix(ob.Key, "| a block looks up what precedes itself in the enclosing statement") {
+				seen = true
+			}
+		}
+		o.req(seen, fn, "a block can see the item that precedes it", f.Pos(), "no lookup of the preceding item: Case / Default blocks cannot be recognised")
 	}
 	return o.list
 }
@@ -1246,15 +1268,21 @@ func rulePXIsNull(c *Ctx) []Obligation {
 		}
 		t.require("a group is null outright only if it is nil", "a group is non-null outright only if it has a delimiter", "a delimiter-less group is null exactly if all its items are")
 		t.flush()
-	} else {
-		o.undecided("(*jen.Group).isNull", "anchor", token.NoPos, "anchor lost: Group's null test or its items helper")
+	} else if c.method("Group", c.nullName()) == nil {
+		o.undecided("(*jen.Group).isNull", "anchor", token.NoPos, "anchor lost: Group's null test")
 	}
-	// ---- conjunction loops
-	for _, lf := range []struct {
-		f    *ssa.Function
-		list string
-		nilR bool
-	}{{nullItems, "recv.items", false}, {c.method("Statement", c.nullName()), "recv", true}} {
+	// ---- conjunction loops (Group.isNull itself when the items loop is inlined into it)
+	type loopSpec struct {
+		f      *ssa.Function
+		list   string
+		nilR   bool
+		delims bool
+	}
+	loops := []loopSpec{{nullItems, "recv.items", false, false}, {c.method("Statement", c.nullName()), "recv", true, false}}
+	if nullItems == nil {
+		loops[0] = loopSpec{c.method("Group", c.nullName()), "recv.items", true, true}
+	}
+	for _, lf := range loops {
 		f := lf.f
 		if f == nil {
 			continue
@@ -1280,6 +1308,21 @@ func rulePXIsNull(c *Ctx) []Obligation {
 			if lf.nilR && F.Has("eq(nil,recv)", true) {
 				t.note("a nil statement is null", b, "path %s returns false for a nil receiver", traceOf(p))
 				continue
+			}
+			if lf.delims {
+				// a group with a delimiter is not null, whatever its items; the items decide only
+				// for a delimiter-less group
+				delim := F.Has("empty(recv.open)", false) || F.Has("empty(recv.close)", false)
+				noDelim := F.Has("empty(recv.open)", true) && F.Has("empty(recv.close)", true)
+				if delim {
+					t.note("a group is non-null outright only if it has a delimiter", !b, "path %s returns true for a group with a delimiter (facts %s)", traceOf(p), F)
+					continue
+				}
+				if !noDelim {
+					t.note("a delimiter-less group is null exactly if all its items are", false, "path %s decides by the items without having found both delimiters empty (facts %s)", traceOf(p), F)
+					continue
+				}
+				t.note("a delimiter-less group is null exactly if all its items are", true, "")
 			}
 			// statuses of the items examined
 			n := 0
@@ -3376,4 +3419,99 @@ func (c *Ctx) validAtStore(p *PXPath, F Facts, n, imp, nameF string) (bool, stri
 		}
 	}
 	return false, why
+}
+
+// with: a copy of the facts with one more literal.
+func (f Facts) with(atom string, pol bool) Facts {
+	g := Facts{}
+	for k, v := range f {
+		g[k] = v
+	}
+	g[atom] = pol
+	return g
+}
+
+// itemsAllNull3: "every item of list is nil or null", read off the facts about the items examined on
+// the path: known true if every examined item is known nil / null and the list is exhausted, known
+// false if some item is known neither.
+func (c *Ctx) itemsAllNull3(p *PXPath, F Facts, list string) (val, known bool) {
+	n := 0
+	for k := 0; k < 8; k++ {
+		it := fmt.Sprintf("%s[%d]", list, k)
+		seen := false
+		for atom := range F {
+			if strings.Contains(atom, it) {
+				seen = true
+			}
+		}
+		if !seen {
+			break
+		}
+		n = k + 1
+		nil3 := fact3(F, eqAtom("nil", it))
+		null3 := [2]bool{}
+		for _, e := range p.Events {
+			if e.Kind == "invoke" && e.Name == c.nullName() && e.Recv.String() == it {
+				if v := fact3(F, e.Res.String()); v[1] {
+					null3 = v
+				}
+			}
+		}
+		if nil3[1] && !nil3[0] && null3[1] && !null3[0] {
+			return false, true
+		}
+		if !((nil3[1] && nil3[0]) || (null3[1] && null3[0])) {
+			return false, false
+		}
+	}
+	exhausted := F.Has(fmt.Sprintf("lt(%d,len(%s))", n, list), false)
+	if n == 0 {
+		exhausted = F.Has("empty("+list+")", true) || F.Has("lt(0,len("+list+"))", false)
+	}
+	if kn, ok := p.Mem["#len:"+list]; ok {
+		if v, isN := kn.intVal(); isN && int(v) == n {
+			exhausted = true
+		}
+	}
+	if exhausted {
+		return true, true
+	}
+	return false, false
+}
+
+// inlinedPrevious: with no separate "previous item" helper, the value whose dynamic type the
+// brace-less test examines, and whether the facts establish that it is the item directly before
+// the group in the enclosing statement (p2): p2[k] with p2[k+1] == recv and no earlier match, or nil
+// when the group is the first item / not found.
+func (c *Ctx) inlinedPrevious(F Facts) (x string, ok bool, why string) {
+	for atom := range F {
+		for _, pre := range []string{"is<*jen.Group>(", "is<jen.token>("} {
+			if strings.HasPrefix(atom, pre) && strings.HasSuffix(atom, ")") {
+				x = atom[len(pre) : len(atom)-1]
+			}
+		}
+	}
+	if x == "" {
+		return "", false, ""
+	}
+	var k int
+	if x == "nil" {
+		// nothing precedes: the group is first, or is not in the statement at all
+		if F.Has(eqAtom("p2[0]", "recv"), true) {
+			return x, true, "the group is the first item"
+		}
+		return x, true, "no preceding item on this path"
+	}
+	if _, err := fmt.Sscanf(x, "p2[%d]", &k); err != nil || fmt.Sprintf("p2[%d]", k) != x {
+		return x, false, "the value examined is " + x + ", not an item of the enclosing statement"
+	}
+	if !F.Has(eqAtom(fmt.Sprintf("p2[%d]", k+1), "recv"), true) {
+		return x, false, fmt.Sprintf("%s is examined without p2[%d] being known to be the group itself", x, k+1)
+	}
+	for j := 0; j <= k; j++ {
+		if !F.Has(eqAtom(fmt.Sprintf("p2[%d]", j), "recv"), false) {
+			return x, false, fmt.Sprintf("an earlier occurrence of the group (p2[%d]) is not excluded", j)
+		}
+	}
+	return x, true, "the item directly before the group's first occurrence"
 }
